@@ -139,7 +139,10 @@ Fixpoint form_eqv (fuel : nat) (a b : form) : bool :=
       | FAtom p xs, FAtom q ys | FNotAtom p xs, FNotAtom q ys => String.eqb p q && strs_eqb xs ys
       | FEq x y, FEq x' y' | FNeq x y, FNeq x' y' => String.eqb x x' && String.eqb y y'
       | FCmp c l r, FCmp c' l' r' => cmpop_eqb c c' && nexp_eqb l l' && nexp_eqb r r'
-      | FAnd l, FAnd l' | FOr l, FOr l' => multiset_eqb (form_eqv fu) l l'
+      (* conjunctions and disjunctions as SETS of members: the library keeps them in hash sets, and a nested condition
+         that equals a sibling (same members, written in another order) may or may not survive a re-hash - "and" and
+         "or" are idempotent, so the meaning is the same; a member that is LOST has no equivalent left and is still seen *)
+      | FAnd l, FAnd l' | FOr l, FOr l' => set_eqb (form_eqv fu) l l'
       | FForall v ty x, FForall v' ty' y => String.eqb v v' && String.eqb ty ty' && form_eqv fu x y
       | _, _ => false
       end
